@@ -133,6 +133,7 @@ def run(R, tier, seed, driver_ok):
                 case = {'est': name, 'params': desc, 'X': X, 'y': y}
                 p = zoo.default_params(name, rng, dd)
                 p.update(cfg)
+                p = zoo.fix_params(name, p, X, y)
                 args = zoo.fit_args(name, X, y, rng)
                 if name.startswith('SDML'):
                     p['balance_param'] = zoo.sdml_safe_balance(name, X, args, p) if isinstance(p.get('prior', 'identity'), str) and p.get('prior', 'identity') == 'identity' else 1e-6
@@ -155,7 +156,7 @@ def run(R, tier, seed, driver_ok):
                     d2 = dd + 1 if dd < 6 else dd - 1
                     X2, y2 = zoo.blobs(rng, d2, n_classes, max(n_per, 6))
                     args2 = zoo.fit_args(name, X2, y2, rng)
-                    est.set_params(**{k: v for k, v in zoo.default_params(name, rng, d2).items() if k in ('n_basis', 'n_chunks')})
+                    est.set_params(**{k: v for k, v in zoo.fix_params(name, zoo.default_params(name, rng, d2), X2, y2).items() if k in ('n_basis', 'n_chunks', 'chunk_size')})
                     try:
                         with warnings.catch_warnings(record=True) as wl:
                             warnings.simplefilter('always')
